@@ -1,0 +1,9 @@
+// SPDX-License-Identifier: MPL-2.0
+
+//! Observation points for the external verification harness (feature `verif-hooks`).
+
+/// Generic Montgomery arithmetic instantiated at small word sizes, and the deployed parameter sets.
+pub mod fp {
+    pub use crate::fp::verif_hooks::*;
+    pub use crate::fp::{FieldOps, FieldParameters};
+}
